@@ -960,7 +960,8 @@ def main():
     ck.cov['trusted_base'] = ['Coq 8.16.1 kernel', 'XSem.v as a reading of the X definition (xhexnotes.pdf) -- spec', 'Isa.v as a reading of hexb.pdf -- spec',
                               'ExtrOcamlBasic extraction + OCaml 4.13 driver ocaml/xdrv.ml (s-expression reader, result printer)',
                               'tools/xcommon.py pretty-printer X AST -> X text (cross-checked on every program by re-parsing with tools/xparse.py)']
-    ck.assumptions = ['well-defined = the extracted XSem.run_fuel says Behaviour with budgets of %d statements and call depth %d for generated programs (XSem.run allows 2000000 and 2000); '
+    ck.assumptions = ['machine capacity: the X definition (XSem) knows no memory size; a program whose image, global arrays and reserved words exceed the 200000-word memory is rejected by the (repaired, 2d62c7c) compiler and counted, after an independent check that it really does not fit (coverage.rejected_because_program_and_arrays_exceed_the_memory); a run whose STACK outgrows the free memory is outside the quantifier (C01: bounded stack depth; C08: recursion up to the stack budget) -- the boundary programs choose their depth from the frame accounting, and C01_program_partial carries the static bound nwords + 2000*maxframe <= sp0 in model_compile\'s validation; C01_full / C08_full as Definitions do not state a capacity hypothesis and are false of any compiler for a finite machine without it',
+                     'well-defined = the extracted XSem.run_fuel says Behaviour with budgets of %d statements and call depth %d for generated programs (XSem.run allows 2000000 and 2000); '
                       'proved: a Behaviour does not change when the recursion fuel grows (run_fuel_monotone); NOT proved, assumed: nor when the statement budget or the depth bound grows' % (STEPS, DEPTH),
                       'order-open evaluation is excluded conservatively by footprints (XSem.v header); ill-defined programs are counted per reason and dropped',
                       'file streams (>= 256) are not generated; console only',
